@@ -11,6 +11,21 @@ SELF_T = {'agg': 'struct url_aggregator', 'url': 'struct url', 'comp': 'struct u
           'usp': 'struct url_search_params'}
 
 
+def _split_top(s):
+    out, depth, cur = [], 0, ''
+    for ch in s:
+        if ch in '([':
+            depth += 1
+        elif ch in ')]':
+            depth -= 1
+        if ch == ',' and depth == 0:
+            out.append(cur); cur = ''
+        else:
+            cur += ch
+    out.append(cur)
+    return out
+
+
 class Extractor:
     def __init__(self, cfg='default', src=None, specs=None):
         self.cfg, self.src = cfg, src
@@ -180,13 +195,65 @@ class Extractor:
             lines.append('__CPROVER_ensures(%s)' % e)
         return lines
 
-    def compose(self, roots, stop=(), stubs=None, havoc=()):
+    def stub_from_contract(self, sig, spec_lines):
+        """executable form of a function contract, used instead of goto-instrument's replace-call-with-contract where the DFCC
+        instrumentation is too heavy: assert(requires); havoc(assigns targets); assume(ensures); return arbitrary value."""
+        from .native import clause_bodies
+        req = clause_bodies(spec_lines, 'requires')
+        ens = clause_bodies(spec_lines, 'ensures')
+        asg = clause_bodies(spec_lines, 'assigns')
+        m = re.match(r'^(.*?)\s*(\w+)\((.*)\)$', sig.replace('\n', ' '), re.S)
+        rtype, fname = m.group(1).strip(), m.group(2)
+        body = []
+        for r in req:
+            if 'is_fresh' in r:
+                continue
+            body.append('  __CPROVER_assert(%s, "precondition of %s (skeleton contract)");' % (r, fname))
+        olds = []
+        def old_sub(e):
+            out = ''; i = 0
+            while True:
+                j = e.find('__CPROVER_old(', i)
+                if j < 0:
+                    return out + e[i:]
+                k = j + len('__CPROVER_old('); d = 1
+                while d:
+                    d += e[k] == '('; d -= e[k] == ')'; k += 1
+                inner = e[j + len('__CPROVER_old('):k - 1]
+                name = '__old%d' % len(olds)
+                olds.append((name, inner))
+                out += e[i:j] + name; i = k
+        ens2 = [old_sub(e) for e in ens]
+        for name, inner in olds:
+            body.append('  __typeof__(%s) %s = %s;' % (inner, name, inner))
+        for a in asg:
+            for t in [x.strip() for x in _split_top(a)]:
+                if not t:
+                    continue
+                mm = re.match(r'^__CPROVER_object_whole\((.*)\)$', t)
+                if mm:
+                    body.append('  __CPROVER_havoc_object((void *)(%s));' % mm.group(1))
+                else:
+                    body.append('  __CPROVER_havoc_slice(&(%s), sizeof(%s));' % (t, t))
+        if rtype != 'void':
+            if rtype == '_Bool':
+                body.append('  _Bool __ret = nondet_bool();')
+            else:
+                body.append('  %s __ret;' % rtype)
+        for e in ens2:
+            body.append('  __CPROVER_assume(%s);' % e.replace('__CPROVER_return_value', '__ret'))
+        if rtype != 'void':
+            body.append('  return __ret;')
+        return sig + '\n{\n' + '\n'.join(body) + '\n}\n'
+
+    def compose(self, roots, stop=(), stubs=None, havoc=(), stubbed=()):
         """C text: prototypes of everything, instance macros, lambdas, definitions. `stop` functions are emitted as
         bodyless prototypes (with their function contract if a spec exists) for --replace-call-with-contract."""
         order, seen = self.closure(roots, stop)
         out = []
         out.append('/* generated by cxx2c from %s (config %s) -- do not edit */' % (self.src or '/repo/src/ada.cpp', self.cfg))
         protos = []
+        stub_defs = []
         for c in sorted(seen):
             if c in stop:
                 n = self.node(c)
@@ -198,7 +265,11 @@ class Extractor:
                 spec = self.spec_for(c).get('function', [])
                 if not spec and c in havoc:
                     spec = self.havoc_contract(c, tr, n)
-                protos.append(sig + '\n' + '\n'.join(spec) + ';')
+                if c in stubbed:
+                    protos.append(sig + ';')
+                    stub_defs.append(self.stub_from_contract(sig, spec))
+                else:
+                    protos.append(sig + '\n' + '\n'.join(spec) + ';')
             else:
                 protos.append(self.done[c]['proto'])
         out.extend(protos)
@@ -216,4 +287,4 @@ class Extractor:
                 if name in insts:
                     body.append(insts.pop(name))
             body.append(d['text'])
-        return '\n\n'.join(out) + '\n\n' + '\n\n'.join(body) + '\n', order
+        return '\n\n'.join(out) + '\n\n' + '\n\n'.join(stub_defs) + '\n\n' + '\n\n'.join(body) + '\n', order
